@@ -116,6 +116,11 @@ def step' (n : Net) : List String → Net × String
     match bw.toNat?, parseBool a, parseBool b with
     | some bw, some a, some b => ({ n with links := n.links ++ [{ bw, load := 0, enA := a, enB := b }] }, "ok")
     | _, _, _ => (n, "bad-op")
+  | ["link", bw, a, b, load] =>
+    -- a link that starts with a load left over (traffic of construction / of `reset()` before the first tick boundary)
+    match bw.toNat?, parseBool a, parseBool b, load.toNat? with
+    | some bw, some a, some b, some load => ({ n with links := n.links ++ [{ bw, load, enA := a, enB := b }] }, "ok")
+    | _, _, _, _ => (n, "bad-op")
   | ["chan", caps, "en", en, "mem", mem] =>
     -- flags as bit strings, e.g. `chan 5,5,7 en 110 mem 100`
     let bits (w : String) : Option (List Bool) := parseBools (w.toList.map fun ch => String.singleton ch)
